@@ -211,7 +211,9 @@ Fixpoint master_loop (steps : nat) (fuel : nat) (m : mstate) (stim : list stimul
       | (r, c, lvc, path) :: rest =>
           match dl with
           | Some d =>
-              if Z.ltb r d then
+              (* a stimulus at an instant already reached (raised together with the previous one) has
+                 happened before the master can act on the wakeup of that instant *)
+              if Z.ltb r d || Z.leb r (m_now m) then
                 if Z.leb r t_end then master_loop k fuel (raise_interrupt m r c lvc path) rest t_end else m
               else if Z.leb d t_end then
                 match fw with
